@@ -42,6 +42,7 @@ func c18Concurrent(x *mc.Cell, nThreads, nOpens, bound int) {
 			}
 			defer n.Stop()
 			s := sched.New(stmtIn("impl/timecounter.go"))
+			defer s.Close() // also on a diverged replay: parked library goroutines must be released before the world is torn down
 			ids := make([][]uint64, nThreads)
 			var calls []*mc.CallResult
 			for t := 0; t < nThreads; t++ {
